@@ -1,3 +1,4 @@
+import re
 from core import Property, spec_match
 from props.c16 import enc
 
@@ -16,7 +17,7 @@ class P(Property):
     harness_bin = 'c18'
     rule = ('dg.enc: stream ids 4k (k over 0..2^10 quick / 0..2^16 thorough, every varint form boundary 63/64, 16383/16384, '
             '2^30-1/2^30, 2^60-1, seeded random k) x payloads of 0..1500 bytes split into 0..4 chunks x seeded consumption '
-            'patterns mixing chunk-bounded reads and raw advance(k) calls; dg.dec: all byte strings of length 0..2, all forms at '
+            'patterns mixing chunk-bounded reads, raw advance(k), copy_to_bytes(k), get_u8, and final drains by chunks / copy_to_bytes(remaining()) (the call h3-quinn makes) / BytesMut::put, with has_remaining() checked against remaining() at every step; dg.dec: all byte strings of length 0..2, all forms at '
             'every truncation, quarter ids around 2^60, seeded random strings of 3..9 bytes, and complete datagrams presented as non-contiguous buffers cut at every position (dg.decc). non-trivial = distinct cases in which '
             'the payload is reached (dg.enc with a non-empty payload or dg.dec with a complete varint)')
 
@@ -49,15 +50,28 @@ class P(Property):
             for _ in range(rng.randint(0, 6)):
                 if left <= 0:
                     break
-                if rng.random() < 0.6:
+                r = rng.random()
+                if r < 0.4:
                     a = rng.randint(1, 9)
                     steps.append('c%d' % a)
                     left -= min(a, left)  # upper bound of what a chunk read can take
-                else:
-                    a = rng.randint(0, min(left, 12))
+                elif r < 0.6:
+                    a = rng.randint(0, min(left, 12)) if rng.random() < 0.8 else rng.randint(0, left)
                     steps.append('a%d' % a)
                     left -= a
-            out.append('dg.enc %d %s %s' % (sid, pl, ','.join(steps) or '-'))
+                elif r < 0.85:
+                    a = rng.randint(0, min(left, 12)) if rng.random() < 0.8 else rng.randint(0, left)
+                    steps.append('b%d' % a)       # copy_to_bytes(a): a provided Buf method an impl may override
+                    left -= a
+                else:
+                    steps.append('g')             # get_u8
+                    left -= 1
+            drain = rng.choice(['d', 'd', 'B', 'B', 'P'])
+            out.append('dg.enc %d %s %s %s' % (sid, pl, ','.join(steps) or '-', drain))
+            if k % 64 == 0 or k > 2 ** 16:
+                # the exact call h3-quinn's send_datagram makes, and BytesMut::put, on the untouched buffer
+                out.append('dg.enc %d %s - B' % (sid, pl))
+                out.append('dg.enc %d %s - P' % (sid, pl))
         # decode
         out.append('dg.dec -')
         for a in range(256):
@@ -75,6 +89,9 @@ class P(Property):
                     out.append('dg.dec ' + e.hex() + rb(rng, rng.randint(1, 6)).hex())
         for _ in range(3000 if tier == 'quick' else 300000):
             out.append('dg.dec ' + rb(rng, rng.randint(3, 9)).hex())
+        for _ in range(60 if tier == 'quick' else 3000):
+            x = rng.getrandbits(rng.choice([6, 14, 30, 60]))
+            out.append('dg.dec ' + enc(x, 1 if x < 64 else 2 if x < 16384 else 4 if x < 2 ** 30 else 8).hex() + rb(rng, rng.choice([64, 300, 1200, 1500])).hex())
         # the same wire bytes as non-contiguous buffers, cut at every position
         for x in vals[:40 if tier == 'quick' else 2000]:
             for l in (1, 2, 4, 8):
@@ -99,6 +116,12 @@ class P(Property):
                 return False
             pos = 0
             for tok in w[1:]:
+                if tok.startswith('HR-MISMATCH'):
+                    return False
+                if re.fullmatch(r'r\d+', tok):
+                    if int(tok[1:]) != (len(flat) // 2 - pos):
+                        return False
+                    continue
                 if ':' in tok:
                     r, tok = tok.split(':', 1)
                     # remaining() must be the true rest at every step
